@@ -1,8 +1,10 @@
 #!/usr/bin/env python3
 """Render seeded/RESULTS.md from the evaluation log written by tools/eval_seeded.sh (/tmp/mut/results2.tsv)."""
 import json, glob, collections, sys, os
-src = sys.argv[1] if len(sys.argv) > 1 else "/tmp/mut/results2.tsv"
-rows = [l.rstrip("\n").split("\t") for l in open(src)]
+srcs = sys.argv[1:] if len(sys.argv) > 1 else ["/tmp/mut/results3.tsv"]
+rows = []
+for src in srcs:   # later files override earlier ones (re-evaluation after a check was strengthened)
+    rows += [l.rstrip("\n").split("\t") for l in open(src)]
 by = collections.OrderedDict()
 for r in rows:
     if len(r) >= 4:
@@ -30,7 +32,7 @@ for lab in sorted(by):
         return "tie" if "no-failing-input-found" in o and o.count("VIOLATION") == o.count("no-failing-input-found") else "VIOLATION"
     own = verdict(prop)
     if own in ("-", "not run"): missed.append(lab)
-    others = ", ".join("%s: %s" % (p, verdict(p)) for p in d if p != prop)
+    others = ", ".join("%s: %s" % (p, verdict(p)) for p in d if p != prop and p != "BASE")
     out.append("| %s | %s | %s | %s | %s |" % (lab, prop, meta.get("summary", "").replace("|", "/")[:160], own, others))
 out += ["", "Not reported by the property's own check: " + (", ".join(missed) if missed else "none") + "."]
 open(os.path.join(os.path.dirname(__file__), "..", "seeded", "RESULTS.md"), "w").write("\n".join(out) + "\n")
